@@ -117,7 +117,12 @@ def finish(ctx, t0, trusted):
     for o in ctx.obligations:
         print("%-8s %-8s instances=%-3d %s" % (o.oid, o.verdict() if not (o.refutations and all((ctx.prop, o.oid, r["key"]) in known_keys for r in o.refutations) and not o.unknowns) else "KNOWN", len(o.instances), o.rule[:110]))
     code = 0
+    shown = {}
     for o, r in violations:
+        shown[o.oid] = shown.get(o.oid, 0) + 1
+        if shown[o.oid] > 5:
+            code = 1
+            continue
         rp = os.path.join(outdir, "replay", "%s_%s_%s.json" % (ctx.prop, o.oid, _safe(r["key"])))
         with open(rp, "w") as f:
             json.dump({"property": ctx.prop, "obligation": o.oid, "rule": o.rule, "key": r["key"], "msg": r["msg"],
@@ -125,6 +130,9 @@ def finish(ctx, t0, trusted):
         print("REFUTED %s [%s] at %s: %s" % (o.oid, r["key"], r["loc"], r["msg"]))
         print("VIOLATION property=%s replay=%s" % (ctx.prop, rp))
         code = 1
+    for oid, n in shown.items():
+        if n > 5:
+            print("... and %d more constructs refuting %s (all listed in the evidence file's obligation_table)" % (n - 5, oid))
     for o, r in errors:
         print("ANALYSIS-ERROR property=%s obligation=%s %s" % (ctx.prop, o.oid, r))
     if errors and code == 0:
@@ -181,7 +189,7 @@ def write_evidence(ctx, t0, trusted, nviol, nknown, nerr):
             "trusted_base": trusted,
             "known_findings_reported": nknown,
             "analysis_errors": nerr,
-            "exhaustive": False,
+            "exhaustive": bool(getattr(ctx, "exhaustive", False)),
         },
         "assumptions": ctx.assumptions + sum((o.assumptions for o in ctx.obligations), []),
         "wall_s": round(time.time() - t0, 3),
